@@ -3,7 +3,7 @@ import json, os
 import numpy as np
 import impl, cases, proto
 from gen import rng_for
-from .common import tolist
+from .common import tolist, confusable, fresh, bits_equal
 
 LEAN = "PystogVerif.Props.C16"
 NCORR = {"quick": 2, "thorough": 20}
@@ -116,6 +116,32 @@ def evaluate(case):
         if not _same(base, again):
             fails.append(f"{entry}: result not reproducible (differs after poisoning freed memory with {fill!r})")
             break
+    # "irrespective of earlier calls": a fresh instance vs an instance that first served look-alike calls (every strictly
+    # increasing array replaced by a different grid with the same length and end points, other arrays by other values of
+    # the same shape) and the identical call
+    if base[0] == "ok" and entry != "Pre_Proc.rebin":
+        cls, name = entry.split(".")
+        prim = []
+        for a in _mk(case):
+            if a is None or np.isscalar(a):
+                prim.append(a)
+            else:
+                c2 = confusable(a)
+                prim.append(c2 if c2 is not None else a * 1.37 + 0.1)
+        try:
+            with np.errstate(all="ignore"):
+                ref = getattr(fresh(cls), name)(*_mk(case), **kw)
+                used = fresh(cls)
+                for pa in (prim, _mk(case)):
+                    try:
+                        getattr(used, name)(*pa, **kw)
+                    except Exception:  # noqa: BLE001
+                        pass
+                got = getattr(used, name)(*_mk(case), **kw)
+            if not bits_equal(tuple(ref) if isinstance(ref, tuple) else ref, tuple(got) if isinstance(got, tuple) else got):
+                fails.append(f"{entry}: result depends on earlier calls of the same instance (look-alike grids with the same length and end points)")
+        except Exception as ex:  # noqa: BLE001
+            fails.append(f"{entry}: raises {type(ex).__name__} on a fresh instance where the shared instance succeeded")
     if base[0] == "ok":
         for k, o in enumerate(base[1]):
             if o is not None and not np.isfinite(np.asarray(o, dtype=float)).all() and not _has_zero_issue(case):
